@@ -30,6 +30,9 @@ TREE_CATALOGUE = [
     ("R13", "enum value not numeric", {"net": '<enum name="E2" type="char"><value name="A">x</value></enum><struct name="U"><field name="e" type="E2"/></struct>'}),
     ("R13", "enum ordinal duplicated", {"net": '<enum name="E2" type="char"><value name="A">1</value><value name="B">1</value></enum><struct name="U"><field name="e" type="E2"/></struct>'}),
     ("R13", "enum value name duplicated", {"map": '<enum name="E2" type="char"><value name="A">1</value><value name="A">2</value></enum><struct name="U"><field name="e" type="E2"/></struct>'}),
+    ("R13", "enum value name duplicated, the first one with ordinal 0", {"net": '<enum name="E2" type="char"><value name="A">0</value><value name="B">1</value><value name="A">2</value></enum><struct name="U"><field name="e" type="E2"/></struct>'}),
+    ("R13", "enum ordinal 0 duplicated", {"pub": '<enum name="E2" type="char"><value name="A">0</value><value name="B">0</value></enum><struct name="U"><field name="e" type="E2"/></struct>'}),
+    ("R13", "enum value name duplicated with equal ordinals", {"net": '<enum name="E2" type="char"><value name="A">0</value><value name="A">0</value></enum><struct name="U"><field name="e" type="E2"/></struct>'}),
     ("R14", "enum underlying type is a string", {"net": '<enum name="E3" type="string"><value name="A">1</value></enum><struct name="U"><field name="e" type="E3"/></struct>'}),
     ("R14", "enum underlying type is itself", {"net": '<enum name="E3" type="E3"><value name="A">1</value></enum><struct name="U"><field name="e" type="E3"/></struct>'}),
     ("R14", "enum underlying type unknown", {"pub": '<enum name="E3" type="word"><value name="A">1</value></enum><struct name="U"><field name="e" type="E3"/></struct>'}),
